@@ -128,6 +128,16 @@ def seq_form(values, form):
 SEQ_ORDERS = ("given", "given", "reversed", "interleaved", "rotated")
 
 
+def with_repeats(values, mode):
+    """The same sequence with some entries occurring more than once (nothing says a node sequence is a set)."""
+    values = list(values)
+    if not mode or len(values) < 2:
+        return values
+    if mode == "mirror":
+        return values + values[::-1]
+    return values[:1] + values + values[len(values) // 2:len(values) // 2 + 1] + values[:1]
+
+
 def reorder(values, order):
     """A deterministic rearrangement (the statements never ask for sorted nodes)."""
     values = list(values)
